@@ -130,7 +130,8 @@ func (m *model) call(sym string) prediction {
 		default:
 			return prediction{status: 400, etype: "InvalidRequestID"}
 		}
-	case "response-stale":
+	case "response-stale", "response-upper":
+		// not the id in flight, byte for byte: refused, no state change
 		return prediction{status: 400, etype: "InvalidRequestID"}
 	case "init-error":
 		switch m.st {
@@ -226,6 +227,8 @@ func runSeq(snapshot bool, seq []string) (func(), *stack.Config, *[]string) {
 					r = rt.Response(orDummy(c.curID), []byte(`"r"`))
 				case "response-oversize":
 					r = rt.Response(orDummy(c.curID), oversizeBody)
+				case "response-upper":
+					r = rt.Response(strings.ToUpper(orDummy(c.curID)), []byte(`"upper"`))
 				case "response-stale":
 					r = rt.Response(orDummy2(c.prevID), []byte(`"stale"`))
 				case "error":
@@ -401,7 +404,7 @@ func init() {
 		var out []hx.Scenario
 		full := append(append([]string{}, rtSyms...), platSyms...)
 		// second family: the oversize response (one byte over the limit) among the calls of a healthy runtime
-		reduced := []string{"next", "response", "response-oversize", "INVOKE"}
+		reduced := []string{"next", "response", "response-oversize", "response-upper", "INVOKE"}
 		for fi, all := range [][]string{full, reduced} {
 			fi, all := fi, all
 			for _, snapshot := range []bool{false, true} {
